@@ -12,7 +12,9 @@ from pathlib import Path
 VERIF = Path(__file__).resolve().parent.parent
 EXTRA = {"C01-m11": ["C04"], "C04-m11": ["C11"], "C05-m11": ["C06"], "C13-m12": ["C14"], "C01-m8": ["C09", "C11"],
          "C03-m8": ["C01"], "C05-m7": ["C08", "C09"], "C05-m8": ["C19"], "C07-m7": ["C11"], "C08-m7": ["C10"],
-         "C11-m7": ["C09"], "C02-m10": ["C19"]}
+         "C11-m7": ["C09"], "C02-m10": ["C19"],
+         "C13-m14": ["C14"], "C08-m14": ["C10"], "C20-m13": ["C11", "C03"], "C03-m14": ["C20"], "C09-m14": ["C11"],
+         "C02-m13": ["C01", "C04"], "C01-m13": ["C03"]}
 
 
 def main():
@@ -28,7 +30,7 @@ def main():
             continue
         name = d.name
         pid = name.split("-")[0]
-        if only and pid not in only:
+        if only and pid not in only and name not in only:
             continue
         checks, thorough = [pid], False
         if (d / "meta.json").is_file():
